@@ -6,6 +6,7 @@ import (
 	"math/rand"
 	"net/http"
 	"net/url"
+	"os"
 	"path/filepath"
 	"reflect"
 	"strconv"
@@ -25,6 +26,7 @@ type oidcOp struct {
 	cb       string // callback: ok | refuse | noidtoken | badsig | wrongiss | wrongaud | expired | garbage | noname
 	user     string
 	wait     int
+	big      int // extra bytes in the IdP's access token (an identity near or beyond the default size limits)
 }
 
 func (o oidcOp) String(t int) string {
@@ -38,6 +40,10 @@ func startOidcGateway(env *runEnv, idp *fakeIdP, store string, n int) *gwInstanc
 	dir := filepath.Join(env.workdir, fmt.Sprintf("oidc-%s-%d", store, n))
 	c := gwConfig{authSet: true, auth: []string{"openid"}, tlsDisable: true, hosts: []string{"10.9.8.7:3389"}, sessionStore: store,
 		providerURL: idp.srv.URL, clientID: idp.clientID}
+	if n >= 2 {
+		// sessions kept in files, with room for large identities
+		c.maxSessionLen = 32768
+	}
 	yaml, ev := c.render("file")
 	g, ok := startGateway(dir, yaml, ev, false)
 	if !ok {
@@ -96,6 +102,15 @@ func runOidcHistory(g *gwInstance, idp *fakeIdP, ops []oidcOp, tag string) (stri
 			}
 			code := fmt.Sprintf("code-%s-%d", tag, i)
 			at := "at-" + code
+			if o.big > 0 {
+				// not compressible: what a signed token with many group claims looks like
+				rr := rand.New(rand.NewSource(int64(i) + int64(o.big)))
+				pad := make([]byte, o.big)
+				for k := range pad {
+					pad[k] = "ABCDEFGHIJKLMNOPQRSTUVWXYZabcdefghijklmnopqrstuvwxyz0123456789-_"[rr.Intn(64)]
+				}
+				at += "." + string(pad)
+			}
 			idp.setToken(at, atBehaviour{kind: "valid", sub: o.user})
 			cb := codeBehaviour{kind: o.cb, accessToken: at, claims: map[string]interface{}{}}
 			if o.cb == "noname" {
@@ -112,6 +127,9 @@ func runOidcHistory(g *gwInstance, idp *fakeIdP, ops []oidcOp, tag string) (stri
 			if err != nil {
 				outs = append(outs, "neterr")
 			} else {
+				if o.big > 0 && os.Getenv("VERIF_DEBUG_LOGS") != "" {
+					fmt.Fprintf(os.Stderr, "DBG big=%d status=%d hdr=%v\n", o.big, resp.StatusCode, resp.Header)
+				}
 				outs = append(outs, "cb"+strconv.Itoa(resp.StatusCode))
 			}
 		}
@@ -124,7 +142,7 @@ func streamC13(env *runEnv) {
 	idp := newFakeIdP()
 	defer idp.close()
 	fails := []string{"refuse", "noidtoken", "badsig", "wrongiss", "wrongaud", "wrongaudazp", "expired", "garbage", "noname"}
-	for si, store := range []string{"cookie", "file"} {
+	for si, store := range []string{"cookie", "file", "file"} {
 		g := startOidcGateway(env, idp, store, si)
 		n := 0
 		run := func(ops []oidcOp) {
@@ -132,6 +150,18 @@ func streamC13(env *runEnv) {
 			spec, obs := runOidcHistory(g, idp, ops, fmt.Sprintf("%s%d-%d", store, env.seed, n))
 			env.count("c13.history." + store)
 			env.emit("oidc", store, spec, obs)
+		}
+		if si == 2 {
+			// identities of every size the store accepts come back as they were saved
+			for _, big := range []int{3000, 7000, 8100, 8300, 12000, 16000} {
+				run([]oidcOp{{kind: "connect", sess: 1}, {kind: "callback", sess: 1, stateRef: 1, cb: "ok", user: "alice", big: big}, {kind: "connect", sess: 1},
+					{kind: "connect", sess: 2}, {kind: "connect", sess: 1}})
+			}
+			if p := os.Getenv("VERIF_DEBUG_LOGS"); p != "" {
+				os.WriteFile(p, []byte(g.logs()), 0o644)
+			}
+			g.stop()
+			continue
 		}
 		// every failure point x session state
 		for _, f := range append([]string{"badstate"}, fails...) {
